@@ -1,7 +1,7 @@
 (* Extraction of the executable models.  ExtrOcamlBasic only: bool/option/list/prod/unit/
    sumbool map to their OCaml counterparts; N, positive, Z, nat stay extracted datatypes. *)
 From Cas Require Import History Conc.
-From Cas Require OpenLock.
+From Cas Require OpenLock OpenLock2.
 Require Extraction.
 Require ExtrOcamlBasic.
 Extraction Language OCaml.
@@ -10,4 +10,4 @@ Extraction "model.ml" run_hist trace_of step crash_fs lose replay_calls
   parse_segment read_segment_lazy enc_record get_range read_blob_range slice
   scan_orphans open_store open_with_recover empty_fs init_world
   enc_settings dec_settings load_entries lex_cmp sm_ins utf8_valid
-  cstep crun init_c all_finished enabled OpenLock.results.
+  cstep crun init_c all_finished enabled OpenLock.results OpenLock2.results2 OpenLock2.lockfile_from OpenLock2.init2.
